@@ -705,6 +705,12 @@ def r12_tick_scoped_buffers(ctx):
 
 from rules.first_sight import r_first_sight
 
+def r20_unconditional_mutators(ctx):
+    """Mutators this property relies on always perform their effect (shared table in rules/mutators.py)."""
+    import rules.mutators as mutators
+    mutators.run_for(ctx, "C03")
+
+
 RULES = [
     ("C03.R1", "one update message per client and tick (single writer of the update channel)", r1_one_update_message, 4, ["default", "all-features", "server-only"]),
     ("C03.R2", "update-message sections: writer, reader and flags agree on order, content and framing", r2_sections, 16, ["default", "all-features"]),
@@ -718,5 +724,6 @@ RULES = [
     ("C03.R10", "entities reserved by entity mapping are materialised before the next record (handlers end in DeferredEntity::flush, which always flushes the world)", r10_reserved_entities_materialised, 6, ["default", "all-features", "client-only"]),
     ("C03.R11", "element counters that frame the message sections count every record on every path (also when byte ranges are merged)", r11_record_counters, 6, ["default", "all-features", "server-only"]),
     ("C03.R12", "removal/despawn buffers are filled every frame and consumed once per tick after their last reader (same rule as C01.R6)", r12_tick_scoped_buffers, 10, ["default", "all-features", "server-only"]),
+    ("C03.R20", "mutators this property relies on always perform their effect (rules/mutators.py): no early return, no guard outside the allowed set", r20_unconditional_mutators, 3, ["default", "all-features"]),
 ]
 THOROUGH_CONFIGS = ["default", "all-features", "server-only", "client-only"]
